@@ -233,6 +233,73 @@ def formatter_level(check, P):
     return n, len(styles)
 
 
+def tracer_level(check, P):
+    """The tracer's entry points take the same free-text keyword (comment=...) and forward it to move(): run the
+    emission loops of parametric() and polyline() with the real move() and judge every delivered statement with the
+    rule used for the builder's own commands."""
+    from ..tracerlab import Lab, AX
+    from ..poly import Poly
+    n = 0
+    S = [[Poly.sym(f"s{i}.{a}") for a in AX] for i in range(2)]
+
+    def pins(key):
+        if key.startswith("has:bounds._bounds[") or key.startswith("has:kw") or key == "nonempty:g._hooks":
+            return False
+        if key.startswith("finite:") or key.startswith("cmp:Gt:estimated") or key == "cmp:Gt:arg.length":
+            return True
+        return None
+    for what in ("parametric", "polyline"):
+        L = Lab(P)
+        I, W = L.I, L.W
+        I.default_fact = pins
+        I.intrinsics.pop("PathTracer.parametric", None)
+        I.loop_unroll = 1
+        samples = ArrV(tuple(Tup(tuple(Num(p) for p in s_)) for s_ in S))
+        I.intrinsics["PathTracer._filter_segments"] = lambda I_, fv, a, k, node: a[1]
+        orig = I.ext_result
+
+        def ext_result(I_, callee, args, kwargs, node, orig=orig):
+            if isinstance(callee, Unk) and callee.tag == "arg.function":
+                return samples
+            return orig(I_, callee, args, kwargs, node)
+        I.ext_result = ext_result
+        text = Unk("arg.comment", "str")
+
+        def entry(I_, _):
+            kw = {"F": Num(Poly.sym("caller.F")), "comment": text}
+            if what == "parametric":
+                return W.call_method(I_, "tracer", "parametric", (Unk("arg.function", "hook"), Num(Poly.sym("arg.length"))), kw)
+            pts = [L.target("ABSOLUTE", S[0], 3), L.target("ABSOLUTE", S[1], 3, prev=S[0])]
+            return W.call_method(I_, "tracer", "polyline", (I_.alloc(AList(pts)),), kw)
+        seen = 0
+        for path in I.explore(L.setup("ABSOLUTE", "CLOCKWISE"), entry, max_dev=None, max_paths=3000):
+            n += 1
+            if path.outcome != "return":
+                continue
+            items = analyse(W, f"trace.{what}", None, {}, "comment=<str>", path)
+            delivered = [s_ for s_ in statements(path)]
+            if not delivered:
+                continue
+            seen += 1
+            mentioned = any(it[0] == "ok" for it in items) or any(it[0] != "ok" for it in items)
+            if not mentioned:
+                # the text did not reach any statement at all: it must not silently become something else either
+                raw = [s_ for s_ in delivered if "arg.comment" in repr(s_.parts)]
+                if raw:
+                    items.append(("viol", "R2", f"trace.{what}:text-outside-comment:arg.comment",
+                                  f"trace.{what}(comment=<str>): the caller's text reaches a delivered statement outside the comment template: {delivered[0].describe()[:120]}",
+                                  [decisions_text(path, 8)]))
+            for it in items:
+                if it[0] == "ok":
+                    check.ok(it[1], it[2])
+                elif it[0] == "undecided":
+                    check.undecided(it[1], it[2])
+                else:
+                    check.violation(it[1], it[2], it[3], it[4])
+        check.floor(seen >= 1, f"C09.R2: trace.{what} delivers nothing on any accepted path")
+    return n
+
+
 def run(check, repo, tier):
     check.rule("R1", "per comment style: comment(text) = <opening> <text without line breaks and without the closing symbols> [<closing>]")
     check.rule("R2", "caller text reaches the writers only inside the comment template's argument, line-break free")
@@ -257,7 +324,8 @@ def run(check, repo, tier):
     need = {"comment", "annotate", "emergency_halt", "move", "rapid", "probe", "set_axis", "auto_home"}
     check.floor(not (not need <= sources), f"C09.R2: no caller-text flow seen for {sorted(need - sources)} (anchor floor)")
     n1, ns = formatter_level(check, cr.program)
-    check.analysed = dict(cr.stats, text_flows=n_ok, commands_with_text=sorted(sources), comment_styles=ns, formatter_paths=n1)
+    n2 = tracer_level(check, cr.program)
+    check.analysed = dict(cr.stats, text_flows=n_ok, commands_with_text=sorted(sources), comment_styles=ns, formatter_paths=n1, tracer_paths=n2)
     check.coverage["exhaustive"] = tier == "thorough"
     check.explanation = (
         "Taint analysis over provenance terms: every caller-supplied string is a named text symbol carrying the set of characters "
